@@ -4,12 +4,17 @@ from . import common as C
 
 
 def c10_exp_overflow(case):
-    """IntOfLogPoly4 evaluated at a v for which -ln v exceeds ln(f64::MAX): exp overflows"""
-    vs = []
-    if case.get("op") == "k" and case.get("name") in ("IntOfLogPoly4::evaluate", "Segment<IntOfLogPoly4>::evaluate"):
-        vs = [case["args"][-1]]
-    for b in vs:
-        v = C.fl(b)
-        if v > 0 and -math.log(v) > 709.782712893384:
-            return True
-    return False
+    """IntOfLogPoly4::evaluate at a v > 0 so small that the closed-form branch overflows binary64 before the final
+    scaling by v: either e^x itself (x = -ln v > ln(f64::MAX) = 709.78...) or the intermediate product u*e^x
+    (|u|/v >= 2^1022).  The exact result is finite there (about k + u), the implementation returns +-inf or NaN."""
+    if case.get("op") != "k" or case.get("name") not in ("IntOfLogPoly4::evaluate", "Segment<IntOfLogPoly4>::evaluate"):
+        return False
+    args = case["args"]
+    off = 1 if case["name"].startswith("Segment<") else 0
+    u = C.fl(args[off + 5])
+    v = C.fl(args[off + 6])
+    if not (v > 0) or v == float("inf"):
+        return False
+    if -math.log(v) > 709.782712893384:
+        return True
+    return abs(u) / v >= 2.0 ** 1022 if u == u else False
